@@ -728,7 +728,7 @@ Section ReadSide.
     intros Hl. unfold assert_directory_verifies. destruct (get_file_entry_dict_safe l path true Hl) as [D1 D2].
     apply safe_bind; [exact D1|]. intros [l' ed] Hg. destruct (D2 _ _ Hg) as [Hl' Hed].
     set (c := mk_vctx (l_top l') (l_dev l') pol lm).
-    destruct (walk_verify_safe c (nodes_fuel w) (pjoin rootdir path) path [] ed true [] Hed) as [W1 W2].
+    destruct (walk_verify_safe c (nodes_fuel w) (walk_top path) path [] ed true [] Hed) as [W1 W2].
     apply safe_bind; [exact W1|]. intros [[[i ed'] ret] log] Hw. specialize (W2 _ _ _ _ Hw).
     apply safe_bind; [|intros; apply safe_ok].
     assert (Inner : forall (d : list N) fes acc, ddshape fes -> safe acc ->
@@ -797,7 +797,7 @@ Section ReadSide.
       intros l'. unfold assert_directory_verifies. destruct (get_file_entry_dict_safe l p true Hl) as [D1 D2].
       destruct (get_file_entry_dict L decompress pgp_verify w l p None true) as [[l1 ed]|]; cbn [bind]; [|discriminate].
       destruct (D2 _ _ eq_refl) as [Hl1 _].
-      destruct (walk_verify L (nodes_fuel w) w _ (pjoin rootdir p) p [] ed true []) as [[[[i e] r] lg]|]; cbn [bind]; [|discriminate].
+      destruct (walk_verify L (nodes_fuel w) w _ (walk_top p) p [] ed true []) as [[[[i e] r] lg]|]; cbn [bind]; [|discriminate].
       destruct (fold_left _ e (Ok (r, lg))) as [rr|]; cbn [bind]; [|discriminate].
       intros H. inversion H; subst. exact Hl1.
   Qed.
